@@ -547,6 +547,9 @@ class Spectrum(numpy.ma.masked_array):
         new_fs = Spectrum(new_data, pop_ids=new_pop_ids)
         # Copy over extrapolation info
         new_fs.extrap_x = self.extrap_x
+        # Merging commutes with folding: the merged entries of a folded
+        # Spectrum are those of the folded merged Spectrum, so it stays folded.
+        new_fs.folded = self.folded
 
         # Fill new spectrum
         for index in np.ndindex(self.shape):
